@@ -134,6 +134,27 @@ func init() {
 				cse.TimeoutMS = 90000
 				cs = append(cs, cse)
 			}
+			// helper goroutines that mark failure while their iteration is ending: whichever way such an
+			// iteration is classified, it is classified once - exported counts equal the result's. Plain flavour
+			// only: T.Fail reads an unsynchronised field that the iteration's teardown writes.
+			nl := 4
+			if tier == "thorough" {
+				nl = 30
+			}
+			for i := 0; i < nl; i++ {
+				cc := pick(r, 2, 4, 8)
+				spec := engine.Spec{Mode: "users", Concurrency: cc, MaxDurationMS: 60000, MaxIterations: uint64(40000 + r.IntN(40000)), IgnoreDropped: true}
+				if i%2 == 1 {
+					spec = engine.RateSpec("constant", 200, 1, cc)
+					spec.MaxIterations, spec.MaxDurationMS, spec.IgnoreDropped = uint64(20000+r.IntN(20000)), 60000, true
+				}
+				p := c01RunParams{Spec: spec, Body: "latemark", Reps: 1}
+				p.Desc = fmt.Sprintf("mode=%s c=%d limit=%d body=latemark", spec.Mode, cc, spec.MaxIterations)
+				cse := core.MkCase("C01", "run", 5000+i, seed, p)
+				cse.Procs = 16
+				cse.TimeoutMS = 90000
+				cs = append(cs, cse)
+			}
 			nf := 4
 			if tier == "thorough" {
 				nf = 24
@@ -394,10 +415,29 @@ func c01Porcupine(c *core.Case, o *core.Outcome) {
 	o.Sample = map[string]any{"histories": p.Histories, "with_snapshot_overlapping_record": concurrent}
 }
 
+// lateMarks counts iterations whose outcome is decided by a helper goroutine racing with the end of the body.
+var lateMarks atomic.Int64
+
+func spinNS(ns int64) {
+	for t0 := time.Now(); time.Since(t0) < time.Duration(ns); {
+	}
+}
+
 func c01Scenario(p *c01RunParams, passed, failed *atomic.Int64, salt uint64) f1testing.ScenarioFn {
 	return func(t *f1testing.T) f1testing.RunFn {
 		return func(t *f1testing.T) {
 			id := engine.IDOf(t)
+			if p.Body == "latemark" {
+				h := id*2654435761 + salt
+				h ^= h >> 13
+				lateMarks.Add(1)
+				go func() {
+					spinNS(int64(h % 1500))
+					t.Fail()
+				}()
+				spinNS(int64((h >> 20) % 1500))
+				return
+			}
 			if p.Body == "span" {
 				// mark first, then outlive the stage: the mark must survive the next stage's pool
 				if p.FailEvery > 0 && id%uint64(p.FailEvery) == 0 {
@@ -470,6 +510,27 @@ func c01RunOnce(c *core.Case, o *core.Outcome, p c01RunParams, inst *metrics.Met
 	if err != nil {
 		o.Violate("gather", "gather: %v", err)
 		return
+	}
+	if p.Body == "latemark" {
+		n := lateMarks.Swap(0)
+		ic := engine.IterationCounts(fams)
+		if int64(su+fa) != n {
+			o.Violate("latemark-total:"+p.Desc, "result reports %d successful + %d failed, %d bodies ran (%s)", su, fa, n, p.Desc)
+			return
+		}
+		if ic["success"] != su || ic["fail"] != fa || ic["dropped"] != dr {
+			o.Violate("latemark-metrics:"+p.Desc, "helper goroutines marked failure while their iteration was ending: metrics carry success=%d fail=%d dropped=%d, the result reports %d/%d/%d - some iteration was classified twice, differently (%s)", ic["success"], ic["fail"], ic["dropped"], su, fa, dr, p.Desc)
+			return
+		}
+		o.Events += n
+		o.AddObs("iterations", n)
+		o.AddObs("late_mark_iterations", n)
+		if su > 0 && fa > 0 {
+			o.AddObs("late_mark_runs_both_outcomes", 1)
+			o.Sig("run:latemark:mode=%s:c=%d", p.Spec.Mode, p.Spec.Concurrency)
+		}
+		o.Sample = map[string]any{"case": p.Desc, "successful": su, "failed": fa, "dropped": dr}
+		return ret
 	}
 	if !c01Compare(o, p.Desc, "at return", su, fa, dr, passed.Load(), failed.Load(), engine.IterationCounts(fams)) {
 		return
